@@ -237,6 +237,8 @@ def query(rng, g):
     p[ax] = lo - eps if rng.random() < 0.5 else hi + eps
     if t > 0.97:  # far away: no candidate even after 12 fuzz increases
         p[ax] = hi + 1.0 + 3.0 * max(g.h)
+    elif t > 0.91:  # beyond the scaled spheres: candidates appear only after some fuzz increases, if at all
+        p[ax] = hi + g.h[ax] * rng.uniform(0.3, 3.0) + 10.0 ** rng.uniform(-6, -1)
     return tuple(p)
 
 
